@@ -6,21 +6,31 @@ from .c01 import random_history, fix_disagreements
 MODULES = ['DsdVerif.Props.C15']
 GEN_FILES = []
 THEOREM_NAMES = ['withClass_frame', 'mkDom_frame', 'mkCplx_frame', 'failed_request_no_trace', 'refused_adds_no_edges']
-THEOREMS = ['Dsd.C05.' + t for t in THEOREM_NAMES]
+READER_THEOREMS = ['readerWorld_fresh', 'readLine_frame', 'slotStrands_needed', 'readDoc_frame', 'reader_objects_in_slot_class',
+                   'reader_objects_in_slot_class_fresh', 'failed_read_no_trace', 'failed_read_from_nothing']
+THEOREMS = ['Dsd.C05.' + t for t in THEOREM_NAMES] + ['Dsd.C15.' + t for t in READER_THEOREMS]
 ASSUMPTIONS = [
     'every class of the metaclass has its own pair of weak dictionaries (Singleton.__init__); the model keeps one registry per class '
     'index (Model/World.lean) and the inherited ID counter semantics (own attribute after the first increment)',
     'the reader slots and user constructors that raise are observed on the real code (the model has no user code)',
 ]
 MANIFEST = {
-    'text': 'Partial. The per-class registries of the Lean World are tied to the code by histories that interleave equal requests across '
+    'text': 'Partial. Proved on the model: requests to one class leave the registries of every other class untouched (withClass_frame, '
+            'mkDom_frame, mkCplx_frame; failed_request_no_trace, refused_adds_no_edges); for the READER (Model/Reader): readLine_frame '
+            '(any line, success or failure: the registered objects of every class other than the configured slot of its kind are '
+            'unchanged - in worlds where the configured strand class holds domains of the configured domain class, a hypothesis shown '
+            'necessary by the kernel-checked counterexample slotStrands_needed), readDoc_frame (a whole document adds nothing to a '
+            'non-slot class and keeps what is held there), reader_objects_in_slot_class (every object in the result dictionary has its '
+            'node in, and is registered in, exactly the configured class of its kind and in no other class), failed_read_no_trace / '
+            'failed_read_from_nothing (after a failed read every registered identity existed before; read into nothing, nothing is '
+            'left). The per-class registries of the Lean World are tied to the code by histories that interleave equal requests across '
             'a base class, a subclass, a sub-subclass and a sibling for all five kinds (identity, refusal, names of all 20 registries '
             'after every step); on the real code: objects of different classes never alias although they compare equal, all 32 '
             'assignments of base / user subclasses to the five reader slots produce objects of exactly the configured class that live '
             'only in that class\\u2019s registry, and user constructors raising before or after delegating leave the name and canonical '
-            'form free (after the exception is released). Frame theorems present at this commit are listed in the evidence.',
+            'form free (after the exception is released).',
     'note': 'The "leaves no trace" clause depends on CPython releasing the half-built object (reference counting): modelled, not verified.',
-    'technique': 'Lean 4 per-class registry model + history correspondence; configuration enumeration and fault injection on the real code',
+    'technique': 'Lean 4 frame theorems over per-class registries and the reader model + history correspondence; configuration enumeration and fault injection on the real code',
 }
 
 
